@@ -125,6 +125,24 @@ func (C02) Gen(r *simrt.RNG, tier string) core.Case {
 	default:
 		w = world.GenWorld(r, cfg)
 	}
+	// an underivable parameter declared by embedding its type in the parameter struct
+	if t := &w.Parties[0]; (t.InForm == world.FormStruct || t.InForm == world.FormPtrStruct) && r.Chance(1, 10) {
+		used := map[int]bool{}
+		for _, p := range w.Parties {
+			for _, sl := range append(append([]world.Slot{}, p.In...), p.Out...) {
+				used[sl.Type] = true
+			}
+		}
+		for _, a := range w.Args {
+			used[a.Label.Type] = true
+		}
+		for ty := 6; ty < world.NumStruct; ty++ {
+			if !used[ty] {
+				t.In = append(append([]world.Slot{}, t.In...), world.Slot{Label: world.Label{Name: fmt.Sprintf("t%d", ty), Type: ty}})
+				break
+			}
+		}
+	}
 	return RCase{W: w}
 }
 
